@@ -12,12 +12,12 @@ struct NotImplementedError {};
 #ifndef ADD_TERMS
 #define ADD_TERMS 2
 #endif
-struct Pow; struct Interval; struct TwoArgBasic; struct OneArgFunction; struct Add; struct Complement; struct Contains;
+struct Pow; struct Interval; struct TwoArgBasic; struct OneArgFunction; struct Add; struct Complement; struct Contains; struct Mul;
 struct Basic {
   TypeID type_code_;
   long rank; hash_t h_; bool zero_;          /* ghost contract data of an abstract child */
   mutable hash_t hash_;
-  const Pow *pow_; const Interval *iv_; const TwoArgBasic *ta_; const OneArgFunction *oa_; const Add *add_; const Complement *cm_; const Contains *ct_;
+  const Pow *pow_; const Interval *iv_; const TwoArgBasic *ta_; const OneArgFunction *oa_; const Add *add_; const Complement *cm_; const Contains *ct_; const Mul *mul_;
   bool composite;
   TypeID get_type_code() const { return type_code_; }
   hash_t __hash__() const;
@@ -50,6 +50,15 @@ inline bool unified_eq(const umap_basic_num &a, const umap_basic_num &b)
   if (a.n == 1) return pair_eq(a.d[0], b.d[0]);
   return (pair_eq(a.d[0], b.d[0]) && pair_eq(a.d[1], b.d[1])) || (pair_eq(a.d[0], b.d[1]) && pair_eq(a.d[1], b.d[0]));
 }
+/* factor dictionary of Mul (map_basic_basic, an ORDERED std::map): at most 2 (base, exponent) pairs in key order, pointer iterators */
+struct map_basic_basic;
+struct mapit { map_basic_basic *m; unsigned k; umap_pair operator*() const; mapit &operator++() { k++; return *this; } bool operator!=(const mapit &o) const { return k != o.k; } };   /* index iterator: pointers into an array of structs abort CBMC 6.11 */
+struct map_basic_basic {
+  umap_pair d[2]; unsigned n; unsigned size() const { return n; }
+  umap_pair at(unsigned k) const { umap_pair r; r.first = d[k < 2 ? k : 0].first; r.second = d[k < 2 ? k : 0].second; return r; }
+  mapit begin() const { mapit i; i.m = (map_basic_basic *)this; i.k = 0; return i; } mapit end() const { mapit i; i.m = (map_basic_basic *)this; i.k = n; return i; }
+};
+inline umap_pair mapit::operator*() const { return m->at(k); }
 #include "unified.inc"          /* unified_compare / unified_eq for RCP operands: real template text of dict.h, instantiated for Basic */
 struct Complement { RCPBasic universe_, container_; hash_t __hash__() const; bool __eq__(const Basic &o) const; int compare(const Basic &o) const; };
 struct Contains { RCPBasic expr_, set_; hash_t __hash__() const; bool __eq__(const Basic &o) const; int compare(const Basic &o) const; RCPBasic get_expr() const; RCPBasic get_set() const; };
@@ -60,6 +69,7 @@ inline const Contains &as_Contains(const Basic &b) { return *b.ct_; }
 struct Pow { RCPBasic base_, exp_; hash_t __hash__() const; bool __eq__(const Basic &o) const; int compare(const Basic &o) const; };
 struct Interval { RCPBasic start_, end_; bool left_open_, right_open_; hash_t __hash__() const; bool __eq__(const Basic &o) const; int compare(const Basic &o) const; };
 struct Add { RCPBasic coef_; umap_basic_num dict_; hash_t __hash__() const; bool __eq__(const Basic &o) const; };
+struct Mul { RCPBasic coef_; map_basic_basic dict_; hash_t __hash__() const; bool __eq__(const Basic &o) const; int compare(const Basic &o) const; };
 /* type tests a maintenance edit may use on a child */
 #define IS_A_CODE(C, code) inline bool is_a_##C(const Basic &b) { return b.type_code_ == code; }
 IS_A_CODE(Infty, SYMENGINE_INFTY) IS_A_CODE(Integer, SYMENGINE_INTEGER) IS_A_CODE(Rational, SYMENGINE_RATIONAL) IS_A_CODE(RealDouble, SYMENGINE_REAL_DOUBLE) IS_A_CODE(Symbol, SYMENGINE_SYMBOL) IS_A_CODE(NaN, SYMENGINE_NOT_A_NUMBER)
@@ -70,6 +80,8 @@ inline bool is_a_Add(const Basic &b) { return b.type_code_ == SYMENGINE_ADD; }
 inline const Pow &as_Pow(const Basic &b) { return *b.pow_; }
 inline const Interval &as_Interval(const Basic &b) { return *b.iv_; }
 inline const Add &as_Add(const Basic &b) { return *b.add_; }
+inline bool is_a_Mul(const Basic &b) { return b.type_code_ == SYMENGINE_MUL; }
+inline const Mul &as_Mul(const Basic &b) { return *b.mul_; }
 struct TwoArgBasic {
   RCPBasic a_, b_; const Basic *self_;
   TypeID get_type_code() const { return self_->type_code_; }
@@ -86,23 +98,23 @@ inline const TwoArgBasic &as_TwoArgBasic(const Basic &b) { return *b.ta_; }
 inline const OneArgFunction &as_OneArgFunction(const Basic &b) { return *b.oa_; }
 /* std::vector<RCP<const Basic>> (argument lists, sets): at most 3 elements, pointer iterators */
 struct vec3 { mutable RCPBasic d[3]; unsigned n; unsigned size() const { return n; } RCPBasic *begin() const { return &d[0]; } RCPBasic *end() const { return &d[0] + n; } };
-#include "ordered.inc"       /* ordered_compare (dict.h), instantiated for the vector stub */
+#include "ordered.inc"       /* ordered_compare (dict.h), instantiated for the vector stub; ordered_eq / ordered_compare / pair and map overloads for the Mul dictionary */
 #include "keyless.inc"       /* struct RCPBasicKeyLess (basic.h), verbatim */
 #include "comp.inc"
 /* virtual dispatch (vtable not modelled): abstract children answer from their ghost contract data */
 hash_t Basic::__hash__() const
 {
   if (!composite) return h_;
-  switch (CLS) { case 1: return pow_->__hash__(); case 2: return iv_->__hash__(); case 3: return ta_->__hash__(); case 4: return oa_->__hash__(); case 6: return cm_->__hash__(); case 7: return ct_->__hash__(); default: return add_->__hash__(); }
+  switch (CLS) { case 1: return pow_->__hash__(); case 2: return iv_->__hash__(); case 3: return ta_->__hash__(); case 4: return oa_->__hash__(); case 6: return cm_->__hash__(); case 7: return ct_->__hash__(); case 10: return mul_->__hash__(); default: return add_->__hash__(); }
 }
 bool Basic::__eq__(const Basic &o) const
 {
   if (!composite) return !o.composite && rank == o.rank;
-  switch (CLS) { case 1: return pow_->__eq__(o); case 2: return iv_->__eq__(o); case 3: return ta_->__eq__(o); case 4: return oa_->__eq__(o); case 6: return cm_->__eq__(o); case 7: return ct_->__eq__(o); default: return add_->__eq__(o); }
+  switch (CLS) { case 1: return pow_->__eq__(o); case 2: return iv_->__eq__(o); case 3: return ta_->__eq__(o); case 4: return oa_->__eq__(o); case 6: return cm_->__eq__(o); case 7: return ct_->__eq__(o); case 10: return mul_->__eq__(o); default: return add_->__eq__(o); }
 }
 int Basic::compare(const Basic &o) const
 {
-  switch (CLS) { case 1: return pow_->compare(o); case 2: return iv_->compare(o); case 3: return ta_->compare(o); case 6: return cm_->compare(o); case 7: return ct_->compare(o); default: return oa_->compare(o); }
+  switch (CLS) { case 1: return pow_->compare(o); case 2: return iv_->compare(o); case 3: return ta_->compare(o); case 6: return cm_->compare(o); case 7: return ct_->compare(o); case 10: return mul_->compare(o); default: return oa_->compare(o); }
 }
 int Basic::__cmp__(const Basic &o) const { return rank < o.rank ? -1 : (rank > o.rank ? 1 : 0); }     /* children only: the assumed contract */
 
@@ -128,10 +140,10 @@ static void any_children(void)
   for (unsigned k = 0; k < 6; k++) { HT[k] = nondet_ulong(); int t = nondet_int(); __CPROVER_assume(t >= 0 && t < (int)TypeID_Count); TT[k] = t; ZT[k] = nondet_boolean(); }
   any_child(c0); any_child(c1); any_child(c2); any_child(c3); any_child(c4); any_child(c5);
 }
-struct Obj { Basic b; Pow p; Interval iv; TwoArgBasic ta; OneArgFunction oa; Add ad; Complement cm; Contains ct; };
+struct Obj { Basic b; Pow p; Interval iv; TwoArgBasic ta; OneArgFunction oa; Add ad; Complement cm; Contains ct; Mul mu; };
 static void any_parent(Obj &o, TypeID tc)
 {
-  o.b.composite = true; o.b.hash_ = 0; o.b.type_code_ = tc; o.b.pow_ = &o.p; o.b.iv_ = &o.iv; o.b.ta_ = &o.ta; o.b.oa_ = &o.oa; o.b.add_ = &o.ad; o.b.cm_ = &o.cm; o.b.ct_ = &o.ct;
+  o.b.composite = true; o.b.hash_ = 0; o.b.type_code_ = tc; o.b.pow_ = &o.p; o.b.iv_ = &o.iv; o.b.ta_ = &o.ta; o.b.oa_ = &o.oa; o.b.add_ = &o.ad; o.b.cm_ = &o.cm; o.b.ct_ = &o.ct; o.b.mul_ = &o.mu;
   o.cm.universe_ = pick(); o.cm.container_ = pick(); o.ct.expr_ = pick(); o.ct.set_ = pick();
   o.p.base_ = pick(); o.p.exp_ = pick();
   o.iv.start_ = pick(); o.iv.end_ = pick(); o.iv.left_open_ = nondet_boolean(); o.iv.right_open_ = nondet_boolean();
@@ -139,6 +151,9 @@ static void any_parent(Obj &o, TypeID tc)
   o.ad.coef_ = pick(); o.ad.dict_.n = nondet_uint(); __CPROVER_assume(o.ad.dict_.n <= ADD_TERMS); o.ad.dict_.rev = nondet_boolean();
   o.ad.dict_.d[0].first = pick(); o.ad.dict_.d[0].second = pick(); o.ad.dict_.d[1].first = pick(); o.ad.dict_.d[1].second = pick();
   __CPROVER_assume(o.ad.dict_.n < 2 || o.ad.dict_.d[0].first->rank != o.ad.dict_.d[1].first->rank);        /* keys of one map are pairwise non-eq */
+  o.mu.coef_ = pick(); o.mu.dict_.n = nondet_uint(); __CPROVER_assume(o.mu.dict_.n <= 2);
+  o.mu.dict_.d[0].first = pick(); o.mu.dict_.d[0].second = pick(); o.mu.dict_.d[1].first = pick(); o.mu.dict_.d[1].second = pick();
+  __CPROVER_assume(o.mu.dict_.n < 2 || o.mu.dict_.d[0].first->rank != o.mu.dict_.d[1].first->rank);
 }
 static TypeID parent_code(void)
 {
@@ -148,6 +163,8 @@ static TypeID parent_code(void)
   return SYMENGINE_INTERVAL;
 #elif CLS == 5
   return SYMENGINE_ADD;
+#elif CLS == 10
+  return SYMENGINE_MUL;
 #elif CLS == 6
   return SYMENGINE_COMPLEMENT;
 #elif CLS == 7
